@@ -161,6 +161,13 @@ func (t treeSpec) build(s *store.Store, seed *int) (*builtTree, error) {
 		for i := range content {
 			content[i] ^= byte(id * 17)
 		}
+		if t.Kind == "fN" {
+			// chunks A A B A C: byte-identical chunks as siblings under one node
+			// (link width 2) and under different nodes (a reader that opens a
+			// shared block once must still deliver it every time)
+			copy(content[3:6], content[0:3])
+			copy(content[9:12], content[0:3])
+		}
 		var c cid.Cid
 		var sz uint64
 		var err error
